@@ -723,6 +723,11 @@ func (p *Parser) parseInsertStmt() ast.Statement {
 		}
 	}
 
+	// an insert of the same name inside the body has registered meanwhile
+	if hasDuplicates := p.checkDuplicateInserts(stmt); hasDuplicates {
+		return nil
+	}
+
 	p.inserts[stmt.Name.Value] = stmt
 
 	return stmt
